@@ -485,7 +485,7 @@ def pstep (s : PState) (t : Tok) : PStep :=
     else .stop .reject
   | .cls3 => if isOp t ':' then .go { s with ex := .cls4 } else .stop .reject
   | .cls4 =>
-    if t = .newline then .go { s with ex := .stmtStart, needIndent := true } else .stop .unknown
+    if t = .newline then .go { s with ex := .stmtStart, phase := .expr, needIndent := true } else .stop .unknown
   | .from1 =>
     (match t with
      | .name _ => .go { s with ex := .from2 }
@@ -522,6 +522,15 @@ def lctx0 : LCtx := { depth := 0, indents := [] }
 
 /-- tokens of a module (after universal-newline translation) -/
 def tokens (X : Ora) (src : List Char) : TokRes := lex X lctx0 (.bol 0) (nnl false src)
+
+/-- the bracket nesting of the source stays within CPython's limit -/
+def nestOk (X : Ora) (src : List Char) : Bool :=
+  match tokens X src with
+  | .ok toks => decide (maxNest 0 0 toks ≤ maxLevel)
+  | .error _ => true
+
+/-- no NUL and no carriage return (the tokenizer rejects the first and rewrites the second) -/
+def textClean (src : List Char) : Bool := !src.contains cNUL && !src.contains cCR
 
 /-- the recogniser: is `src` a module of the subset? -/
 def recognise (X : Ora) (src : List Char) : Verdict :=
